@@ -100,3 +100,65 @@ func VH_C15_two_lines() {
 	zzverif.Assert(len(dst.calls) == 4, "after the trigger every line is written immediately")
 	zzverif.Reach("C15/two-lines")
 }
+
+// Concurrent writers: one or two lines are held; then goroutine A writes a line at or above
+// TriggerLevel while goroutine B writes one more line (held-class, pass-through-class or a
+// second trigger). Every schedule must leave the destination with a sequence some sequential
+// order of the two calls produces: the held lines first and in order, the two new lines after
+// them in either order — except that a pass-through-class line of B may also come first.
+func VH_C15_concurrent() {
+	cl, tl := DebugLevel, ErrorLevel
+	dst := &vWriter{}
+	w := &TriggerLevelWriter{Writer: dst, ConditionalLevel: cl, TriggerLevel: tl}
+	nheld := 1 + zzverif.Choice(2)
+	h1, h2 := []byte{'1', '\n'}, []byte{'2', '\n'}
+	w.WriteLevel(DebugLevel, h1)
+	if nheld == 2 {
+		w.WriteLevel(TraceLevel, h2)
+	}
+	zzverif.Assert(len(dst.calls) == 0, "lines at or below ConditionalLevel are held back")
+	var lb Level
+	switch zzverif.Choice(3) {
+	case 0:
+		lb = DebugLevel // held-class
+	case 1:
+		lb = InfoLevel // pass-through-class
+	case 2:
+		lb = FatalLevel // a second trigger
+	}
+	ea, eb := []byte{'A', '\n'}, []byte{'B', '\n'}
+	done := make(chan struct{})
+	go func() {
+		zzverif.RegisterThread(1)
+		w.WriteLevel(lb, eb)
+		close(done)
+	}()
+	w.WriteLevel(ErrorLevel, ea)
+	<-done
+	zzverif.Assert(len(dst.calls) == nheld+2, "concurrent writers: no line lost or duplicated")
+	if len(dst.calls) != nheld+2 {
+		return
+	}
+	off := 0
+	if lb == InfoLevel && dst.calls[0].buf[0] == 'B' {
+		off = 1 // B passed through before A's trigger
+	}
+	zzverif.Assert(zzverif.EqualBytes(dst.calls[off].buf, h1) && dst.calls[off].level == DebugLevel, "concurrent writers: held lines are released first, in order, unmodified")
+	if nheld == 2 {
+		zzverif.Assert(zzverif.EqualBytes(dst.calls[off+1].buf, h2) && dst.calls[off+1].level == TraceLevel, "concurrent writers: held lines are released first, in order, unmodified")
+	}
+	ia, ib := -1, -1
+	for i, c := range dst.calls {
+		if c.buf[0] == 'A' && c.level == ErrorLevel && len(c.buf) == 2 {
+			ia = i
+		}
+		if c.buf[0] == 'B' && c.level == lb && len(c.buf) == 2 {
+			ib = i
+		}
+	}
+	zzverif.Assert(ia >= 0 && ib >= 0 && ia != ib, "concurrent writers: both new lines arrive unmodified with their levels")
+	if off == 0 {
+		zzverif.Assert(ia >= nheld && ib >= nheld, "concurrent writers: no line overtakes the held lines")
+	}
+	zzverif.Reach("C15/concurrent")
+}
